@@ -14,7 +14,10 @@ func init() {
 			ff := c.fileFilter("bounder.go", "solid.go", "shapes.go", "metaball.go", "polytope.go", "transform.go",
 				"screw.go", "teardrop.go", "ramp.go", "clamp.go", "gear.go", "height_map.go", "line_join.go", "radial_curve.go", "rect_set.go", "slice.go")
 			_ = ff // the units rule runs over every file of the four geometry packages (silent on all of them today)
+			unitOriginRule = "ORIGIN"
 			c.runUnits("UNIT", pkgs, nil)
+			unitOriginRule = ""
+			c.floor("ORIGIN", 40)
 			c.floor("UNIT", 200)
 			c.runArgSwap("ARGSWAP", pkgs, nil, func(a, b string) bool { return a == "min" && b == "max" || a == "max" && b == "min" })
 			c.floor("ARGSWAP", 40)
